@@ -421,6 +421,24 @@ class K:
         d, name = self._geom(self.n, by)
         return d, name, self._geom(by, 2)
 
+    def _chunk(self, k, log):
+        out = []
+        left = k
+        while left > 0:
+            take = min(left, 2)
+            out.append((k, take))
+            log.append(k)
+            left -= take
+        return out
+
+    def chunks(self, by):
+        log = []
+        flat = tuple([c for k in range(self.n) if k != by for c in self._chunk(k, log)])
+        acc = []
+        for c in self._chunk(by, log):
+            acc.append(c)
+        return flat, acc, log
+
     @property
     def _odd_items(self):
         return [i for i in range(self.n) if i % 2]
@@ -498,7 +516,7 @@ def main():
             print("MISMATCH", f, args, ra, rb)
     for n in (0, 3, 6, 9):
         for by in (0, 1, 4):
-            for meth in ("run", "ret", "prop", "geom"):
+            for meth in ("run", "ret", "prop", "geom", "chunks"):
                 ra = repr(getattr(a.K(n), meth)(by))
                 rb = repr(getattr(b.K(n), meth)(by))
                 if ra != rb:
